@@ -106,7 +106,7 @@ def make_ops(rng, cfg, profile, tier):
         elif r < 0.81:
             ops.append({'op': 'SPLIT_PARTS', 'a': [rng.randrange(2, 6), rng.randrange(1 << 16) % 5, rng.random() < 0.3]})
         elif r < 0.815:
-            ops.append({'op': rng.choice(['EXTRACT_PARTS', 'ROW_PARTS', 'FD_HESSIAN', 'REMOVE_REBUILD', 'MC_SUM']),
+            ops.append({'op': rng.choice(['EXTRACT_PARTS', 'ROW_PARTS', 'FD_HESSIAN', 'REMOVE_REBUILD', 'REMOVE_REBUILD', 'MC_SUM']),
                         'a': [rng.randrange(2, 5), rng.randrange(1 << 16) % 5]})
         elif r < 0.82:
             ops.append({'op': 'ALIAS', 'a': [rng.randrange(64), rng.randrange(1 << 16) % 5, rng.randrange(1 << 16) % 5]})
@@ -509,6 +509,11 @@ class Session:
             if len(keep_t) == len(t) or len(keep_t) == 0:
                 ctx.log(kind, 'skip')
             else:
+                if a[0] % 3 == 0:
+                    t.index = [i // 2 for i in range(len(t))]       # two files joined with pandas.concat: labels repeat
+                    ctx.probe('rows removed from a table whose row labels repeat')
+                elif a[0] % 3 == 2:
+                    t.index = [3 * i + (i % 2) for i in range(len(t))]
                 d = db.Database('rr', t)
                 ll1, w1, _ = specs.build_formulas(self.cfg)
                 f1 = {'log_like': ll1} if w1 is None else {'log_like': ll1, 'weight': w1}
